@@ -59,6 +59,9 @@ c16!(c16_ecl10_read_size20, 24, read_instr_never_panics::<20>(&ModernEclHooks, 6
 //@ C16 c16_label_ecl10_no_panic quick default ECL TH10+ label decoding of an arbitrary 32-bit jump argument never panics
 c16!(c16_label_ecl10_no_panic, 2, decode_label_never_panics(&ModernEclHooks));
 
+//@ C16 c16_ecl10_read_size17 quick default ECL (TH10+): read_instr on arbitrary header bytes whose size field is 17 (one more than the header) returns Ok or Err and never panics (no underflow, no failed assert, no out-of-range read)
+c16!(c16_ecl10_read_size17, 21, read_instr_never_panics::<17>(&ModernEclHooks, 6, 2, 17));
+
 #[cfg(kani)]
 #[path = "/verif/.cache/playback/ecl_10.rs"]
 mod playback;
